@@ -137,6 +137,42 @@ static inline double *dense_copy(const double *first, const double *last, double
   if (has) dst[dense_g_copyk] = gv;
   return dst + n;
 }
+/* ---- diagonal view, isDiagonal(), setIdentity() (vocabulary; not used by the current code) ----------------------------------
+ * m.diagonal(): Eigen::Diagonal<MatrixType,0>, a VIEW of m with min(rows, cols) coefficients, coefficient k is m(k,k).
+ * .real() on an expression of a real scalar type returns the expression itself (RealReturnType = const Derived&,
+ *   Eigen/src/plugins/CommonCwiseUnaryOps.h).
+ * vector = view: the vector is resized to the size of the view and coefficient k becomes m(k,k).  Kept for the two ghost positions
+ *   eig_g_a / eig_g_b (the arbitrary pair that stubs/eigsolver.h and the contracts about eigenvalue vectors use), which are read BEFORE
+ *   the destination is reallocated; every other coefficient of the destination is arbitrary (over-approximation).
+ * m.isDiagonal(prec): false for a non-square matrix, otherwise "every off-diagonal coefficient is much smaller than the largest
+ *   diagonal coefficient" -- a function of the contents which the model does not evaluate: an ARBITRARY answer (nothing assumed).
+ * m.setIdentity(): m(i,j) = (i == j); dimensions and storage unchanged.  Kept for the cells addressed by the ghost pair
+ *   ((a,a), (b,b) = 1; (a,b), (b,a) = 0 for a != b); every other coefficient is arbitrary (over-approximation). */
+long eig_g_a, eig_g_b;               /* (tentative definition shared with stubs/eigsolver.h) */
+typedef struct DiagView { RealMatrix *m; } DiagView;
+#define RealMatrix_diagonal(mp) (*(DiagView[1]){ { (mp) } })
+#define DiagView_real(v) (v)
+static inline long DiagView_size(DiagView *v) { return v->m->rows < v->m->cols ? v->m->rows : v->m->cols; }
+static inline void RealVector_assign_diag(RealVector *dst, DiagView *v)
+{
+  long n = DiagView_size(v);
+  _Bool ha = 0 <= eig_g_a && eig_g_a < n, hb = 0 <= eig_g_b && eig_g_b < n;
+  double va = ha ? v->m->data[DENSE_IDX(eig_g_a, eig_g_a)] : 0.0, vb = hb ? v->m->data[DENSE_IDX(eig_g_b, eig_g_b)] : 0.0;
+  dst->size = n;
+  dst->data = malloc((size_t)n * 8UL);           /* fresh storage: arbitrary contents */
+  __CPROVER_assume(dst->data != (double *)0);   /* ASSUMED: allocation succeeds */
+  if (ha) dst->data[eig_g_a] = va;
+  if (hb) dst->data[eig_g_b] = vb;
+}
+static inline _Bool RealMatrix_isDiagonal(RealMatrix *m) { if (m->rows != m->cols) return 0; return nondet_bool(); }
+static inline void RealMatrix_setIdentity(RealMatrix *m)
+{
+  if (m->rows > 0) __CPROVER_havoc_object(m->data);
+  _Bool ha = 0 <= eig_g_a && eig_g_a < m->rows && eig_g_a < m->cols, hb = 0 <= eig_g_b && eig_g_b < m->rows && eig_g_b < m->cols;
+  if (ha) m->data[DENSE_IDX(eig_g_a, eig_g_a)] = 1.0;
+  if (hb) m->data[DENSE_IDX(eig_g_b, eig_g_b)] = 1.0;
+  if (ha && hb && eig_g_a != eig_g_b) { m->data[DENSE_IDX(eig_g_a, eig_g_b)] = 0.0; m->data[DENSE_IDX(eig_g_b, eig_g_a)] = 0.0; }
+}
 /* MatrixType m(rows, cols): uninitialised coefficients */
 static inline RealMatrix RealMatrix_ctor2(unsigned long r, unsigned long c)
 {
